@@ -4,7 +4,7 @@ include!(concat!(env!("KV_HARNESS_DIR"), "/lib/libm.rs"));
 
 fn kv_kind() -> EqFilterKind { let m: u8 = kani::any(); match m % 3 { 0 => EqFilterKind::Bell, 1 => EqFilterKind::LowShelf, _ => EqFilterKind::HighShelf } }
 
-// @h prop=C13,C14 tier=quick kind=main timeout=280
+// @h prop=C13,C14 tier=quick kind=main timeout=600
 // @bounds all three kinds; gain exactly 0 dB; any finite frequency, any finite q (clamped at MIN_Q), dt = 1/48000: the mixing coefficients are exactly (1, 0, 0)
 // @funcs Coefficients::calculate
 // @assume powf contract stub (pow(10,0) = 1), tan contract stub (finite, positive on the clamped range), sqrt exact
@@ -24,7 +24,7 @@ fn c13_eq_zero_gain_is_identity() {
 	std::mem::forget(c);
 }
 
-// @h prop=C13,C01 tier=quick kind=main timeout=280
+// @h prop=C13,C01 tier=quick kind=main timeout=600
 // @bounds all three kinds; every finite gain in [-80, +40] dB incl. -60 dB and below; frequency 500 Hz, q 1, 48 kHz: all six coefficients are finite
 // @funcs Coefficients::calculate
 // @assume powf contract stub with 10^e >= 0.0099 for e >= -2 and <= 10.001 for e <= 1; tan contract stub
